@@ -40,31 +40,43 @@ def tag(kind, v):
     return "%s:%r" % (kind, float(v))
 
 
+TABLE_KEY = {"converter": "eff", "linreg": "ig", "pswitch": "ig", "pmux": "ig", "rectifier": "ig"}
+
+
 def mk(c):
-    """component object of a description {"name", "kind", "val"}"""
+    """component object of a description {"name", "kind", "val"[, "limits": {...}][, "table": True]}
+    (`table`: the secondary parameter eff / ig is an interpolation table instead of a constant)"""
     k, n, v = c["kind"], c["name"], c["val"]
+    kw = {}
+    if c.get("limits"):
+        kw["limits"] = copy.deepcopy(c["limits"])
+    if c.get("table") and k in TABLE_KEY:
+        z = TABLE_KEY[k]
+        vals = [[0.55, 0.78, 0.92]] if z == "eff" else [[1e-5, 2e-5, 5e-5]]
+        kw[z] = {"vi": [3.3], "io": [0.1, 0.5, 0.9], z: vals}
     if k == "source":
-        return Source(n, vo=v)
+        return Source(n, vo=v, **kw)
     if k == "pload":
-        return PLoad(n, pwr=v)
+        return PLoad(n, pwr=v, **kw)
     if k == "iload":
-        return ILoad(n, ii=v)
+        return ILoad(n, ii=v, **kw)
     if k == "rload":
-        return RLoad(n, rs=v)
+        return RLoad(n, rs=v, **kw)
     if k == "rloss":
-        return RLoss(n, rs=v)
+        return RLoss(n, rs=v, **kw)
     if k == "vloss":
-        return VLoss(n, vdrop=v)
+        return VLoss(n, vdrop=v, **kw)
     if k == "converter":
-        return Converter(n, vo=v, eff=0.9)
+        kw.setdefault("eff", 0.9)
+        return Converter(n, vo=v, **kw)
     if k == "linreg":
-        return LinReg(n, vo=v)
+        return LinReg(n, vo=v, **kw)
     if k == "pswitch":
-        return PSwitch(n, rs=v)
+        return PSwitch(n, rs=v, **kw)
     if k == "pmux":
-        return PMux(n, rs=v)
+        return PMux(n, rs=v, **kw)
     if k == "rectifier":
-        return Rectifier(n, rs=v)
+        return Rectifier(n, rs=v, **kw)
     raise ValueError(k)
 
 
